@@ -144,6 +144,8 @@ pub struct ImageSpec {
     pub reftable_clusters: usize,
     /// host cluster indices the sequential allocator leaves free
     pub skip_host: Vec<usize>,
+    /// every compressed stream gets host clusters of its own (needed for 1-bit refcounts)
+    pub comp_separate: bool,
 }
 
 impl ImageSpec {
@@ -166,6 +168,7 @@ impl ImageSpec {
             min_file_clusters: 0,
             reftable_clusters: 0,
             skip_host: vec![],
+            comp_separate: false,
         }
     }
     pub fn cs(&self) -> usize {
@@ -258,6 +261,9 @@ pub fn build_image(spec: &ImageSpec) -> Built {
     if spec.comp_end_on_boundary && !comp_payloads.is_empty() {
         comp_area_clusters += 1;
     }
+    if spec.comp_separate {
+        comp_area_clusters = comp_payloads.iter().map(|p| (spec.comp_pad % cs + p.1.len() + cs - 1) / cs).sum();
+    }
     let n_l2 = l2_needed.iter().filter(|x| **x).count();
     let n_data = kinds.iter().filter(|k| matches!(k, GKind::Data | GKind::ZeroPrealloc)).count();
     let other = 1 + l1_clusters + n_l2 + n_data + comp_area_clusters; // incl. header
@@ -322,7 +328,22 @@ pub fn build_image(spec: &ImageSpec) -> Built {
         }
     }
     // compressed area
-    if !comp_payloads.is_empty() {
+    if spec.comp_separate {
+        for (gi, payload) in comp_payloads.iter() {
+            let pad = spec.comp_pad % cs;
+            let n = (pad + payload.len() + cs - 1) / cs;
+            let start_cl = alloc(n);
+            let pos = ((start_cl as u64) << cb) + pad as u64;
+            truth[*gi].host_off = pos;
+            truth[*gi].comp_len = payload.len();
+            let nb_sectors = ((pos & 511) as usize + payload.len() + 511) / 512;
+            let s = pos & !511;
+            let e = s + (nb_sectors as u64) * 512;
+            for c in ((s >> cb) as usize)..=(((e - 1) >> cb) as usize) {
+                addref(c, &mut refs);
+            }
+        }
+    } else if !comp_payloads.is_empty() {
         let start_cl = alloc(comp_area_clusters);
         let mut pos = ((start_cl as u64) << cb) + spec.comp_pad as u64;
         if spec.comp_end_on_boundary {
@@ -374,7 +395,8 @@ pub fn build_image(spec: &ImageSpec) -> Built {
     for (c, n) in refs.iter() {
         let rb = rb_cls[c / rbe];
         let base = rb << cb;
-        rc_set(&mut bytes[base..base + cs], spec.refcount_order, c % rbe, (*n).min(rc_max(spec.refcount_order)));
+        assert!(*n <= rc_max(spec.refcount_order), "image spec needs refcount {} on host cluster {} but the width holds {}", n, c, rc_max(spec.refcount_order));
+        rc_set(&mut bytes[base..base + cs], spec.refcount_order, c % rbe, *n);
     }
     // L1
     for i in 0..l1_entries {
@@ -769,7 +791,9 @@ pub fn check_image(b: &[u8]) -> Report {
         let s = rd(b, h.l1_off, l1_bytes, &mut scratch);
         s.chunks(8).map(|c| u64::from_be_bytes(c.try_into().unwrap())).collect()
     };
-    r.mapping = vec![('u', 0); gcl as usize];
+    // per-guest-cluster mapping only for images of moderate virtual size
+    let keep_mapping = gcl <= (1 << 22);
+    r.mapping = if keep_mapping { vec![('u', 0); gcl as usize] } else { vec![] };
     let x = 62 - (cb - 8);
     for (i, e) in l1.iter().enumerate() {
         if *e == 0 {
@@ -823,7 +847,7 @@ pub fn check_image(b: &[u8]) -> Report {
                 }
                 if g >= gcl {
                     r.beyond_size.push(format!("L2[{}][{}] maps guest cluster {} beyond the virtual size", i, j, g));
-                } else {
+                } else if keep_mapping {
                     r.mapping[g as usize] = ('c', coff);
                 }
                 for c in (s >> cb)..=((e2 - 1) >> cb) {
@@ -847,7 +871,7 @@ pub fn check_image(b: &[u8]) -> Report {
                 }
                 if g >= gcl {
                     r.beyond_size.push(format!("L2[{}][{}] maps guest cluster {} beyond the virtual size", i, j, g));
-                } else {
+                } else if keep_mapping {
                     r.mapping[g as usize] = if zero { ('z', doff) } else if doff != 0 { ('d', doff) } else { ('u', 0) };
                 }
                 if doff != 0 {
